@@ -31,7 +31,7 @@ Bin(o, a, b) == [op |-> o, a |-> a, b |-> b]
 RECURSIVE Bodies(_)
 Bodies(n) == IF n = 0 THEN {Leaf("x"), Leaf("y")}
              ELSE LET T == Bodies(n - 1) IN
-                  T \cup {Un(o, a) : o \in {"neg", "scal", "sscal", "adds", "matvec", "mprod"}, a \in T}
+                  T \cup {Un(o, a) : o \in {"neg", "scal", "sscal", "adds", "matvec", "vecmat", "mprod"}, a \in T}
                     \cup {Bin(o, a, b) : o \in {"add", "sub", "mul"}, a \in T, b \in Bodies(0)}
 
 Heads == {"id", "slice", "ell", "rslice", "cat", "pad", "kron", "diag", "full", "bcast"}
